@@ -247,6 +247,12 @@ fn main() {
     let thorough = a.str("tier", "quick") == "thorough";
     let hook_only = a.str("streams", "all") == "hook";
     let real = a.u64("real", 0);
+    // back end: 0 = whatever the CPU detection picks, 1..5 = SSE2, SSSE3, SSE4.1, AVX, AVX2 (hook H1)
+    let level = a.u64("level", 0) as u8;
+    #[cfg(cryptocorrosion_verif)]
+    ppv_lite86::x86_64::verif::set_level(level);
+    // reduced: every 4th length of the sweep (plus the padding boundaries), fewer hook states
+    let reduced = a.str("streams", "all") == "reduced";
     let mut rng = Rng::new(seed ^ 0xb1a4e);
     let mut cases: Vec<Case> = Vec::new();
     let mut direct: Vec<String> = Vec::new();
@@ -281,6 +287,10 @@ fn main() {
     for &v in &variants {
         let block = if v <= 256 { 64 } else { 128 };
         for len in 0..=(3 * block + 1) {
+            let r = len % block;
+            if reduced && !(len % 4 == (v as usize / 32) % 4 || r <= 1 || r + 1 == block || (r + 10 >= block && r + 7 <= block) || (r + 18 >= block && r + 15 <= block)) {
+                continue;
+            }
             let msg = content(&mut rng, len as u64 + v as u64, len);
             cases.push(digest_case(v, &msg));
             n_sweep += 1;
@@ -448,7 +458,7 @@ fn main() {
         samples.push(c.json.clone());
     }
     println!(
-        "{{\"evaluations\":{},\"distinct_nontrivial\":{},\"length_sweep\":{},\"sparse_long\":{},\"multi_update\":{},\"max_len\":{},\"hook_state_cases\":{},\"hook_roundtrips\":{},\"real_stream_cases\":{},\"really_streamed_bytes\":{},\"variants\":[224,256,384,512],\"direct_failures\":[{}],\"samples\":[{}]}}",
+        "{{\"evaluations\":{},\"distinct_nontrivial\":{},\"length_sweep\":{},\"sparse_long\":{},\"multi_update\":{},\"max_len\":{},\"hook_state_cases\":{},\"hook_roundtrips\":{},\"real_stream_cases\":{},\"really_streamed_bytes\":{},\"backend_level\":{},\"variants\":[224,256,384,512],\"direct_failures\":[{}],\"samples\":[{}]}}",
         cases.len(),
         distinct.len(),
         n_sweep,
@@ -459,6 +469,7 @@ fn main() {
         n_rt,
         n_real,
         real_bytes,
+        level,
         direct.join(","),
         samples.join(",")
     );
